@@ -98,7 +98,22 @@ fn judge_render(case: &Case) -> Outcome {
             let hm_json = doc.to_hashmap_json();
             let hm_yaml = doc.to_hashmap_yaml();
             let hm_model = doc.to_hashmap_docval();
+            // the same numbers held in signed integers (what an i64 field or a hand-written Document
+            // returns) instead of unsigned ones (what YAML / JSON give for non-negative numbers)
+            fn signed(v: &DocVal) -> DocVal {
+                match v {
+                    DocVal::UInt(u) if *u <= i64::MAX as u64 => DocVal::Int(*u as i64),
+                    DocVal::Arr(a) => DocVal::Arr(DArr(a.0.iter().map(signed).collect())),
+                    DocVal::Obj(o) => DocVal::Obj(DObj(o.0.iter().map(|(k, x)| (k.clone(), signed(x))).collect())),
+                    other => other.clone(),
+                }
+            }
+            let twin = match signed(&DocVal::Obj(doc.clone())) {
+                DocVal::Obj(o) => o,
+                _ => unreachable!(),
+            };
             let mut renderings: Vec<(&str, Result<bool, String>)> = vec![
+                ("the hand-written Object holding signed integers", engine::matches(r, &twin)),
                 ("serde_yaml::Mapping", engine::matches(r, &yaml)),
                 ("HashMap<String, serde_yaml::Value>", engine::matches(r, &hm_yaml)),
                 ("HashMap<String, model value>", engine::matches(r, &hm_model)),
@@ -229,6 +244,31 @@ fn check_typed<V: AsValue>(
                 text.lines().filter(|l| l.contains("k:") || l.contains("k)")).collect::<Vec<_>>().join(" "),
                 expected.show()
             ));
+        }
+        // the same numbers in the other signedness (an i64 field and a u64 field holding 5 are the
+        // same data)
+        fn other_sign(v: &DocVal) -> DocVal {
+            match v {
+                DocVal::UInt(u) if *u <= i64::MAX as u64 => DocVal::Int(*u as i64),
+                DocVal::Int(i) if *i >= 0 => DocVal::UInt(*i as u64),
+                DocVal::Arr(a) => DocVal::Arr(DArr(a.0.iter().map(other_sign).collect())),
+                DocVal::Obj(o) => DocVal::Obj(DObj(o.0.iter().map(|(k, x)| (k.clone(), other_sign(x))).collect())),
+                other => other.clone(),
+            }
+        }
+        if let DocVal::Obj(twin) = other_sign(&DocVal::Obj(expected.clone())) {
+            if twin != *expected {
+                let c = engine::matches(rule, &twin).map_err(|p| format!("matches panicked: {p}"))?;
+                evals += 1;
+                if c != a {
+                    return Err(format!(
+                        "rule [{}] matches={a} on HashMap<String, {ty}> holding {} but {c} when the same numbers are held with the other signedness ({})",
+                        text.lines().filter(|l| l.contains("k:") || l.contains("k)")).collect::<Vec<_>>().join(" "),
+                        expected.show(),
+                        twin.show()
+                    ));
+                }
+            }
         }
     }
     Ok(evals)
@@ -519,7 +559,8 @@ pub fn run(tier: &str, seed: u64) -> i32 {
         floats). (b) typed documents HashMap<String, T> for 28 std types T (all integer widths, f32/f64, bool, \
         String, (), Option, nested Option, Vec, Vec<Vec>, Vec<Option>, HashSet, HashMap) with boundary-biased values: \
         find() must present the value kind with the same numeric value and signedness, and ~25 discriminating rules \
-        must give the verdict they give on the same data as a hand-written Object. Non-trivial: (a) document with >= \
+        must give the verdict they give on the same data as a hand-written Object; in (a) and (b) the same numbers held \
+        with the other signedness (Int 5 for UInt 5 and back) must give that verdict too. Non-trivial: (a) document with >= \
         2 value kinds and both verdicts over the documents, distinct by rule; (b) every typed document, distinct by \
         (type, values)."
         .into();
